@@ -429,7 +429,16 @@ fn run(case: &Case, cx: &mut Cx) -> CaseResult {
                 n += 1;
                 let dest = cx.dir("r").join(format!("d{n}"));
                 let rr = ops::restore(&w.arch, &None, &dest, &Sel::Band(*id), None, &[], false);
-                let diff = tree::first_diff(&tree::expected(want), &tree::snapshot(&dest), CmpOpts::restore());
+                let got = tree::snapshot(&dest);
+                let mut expected = tree::expected(want);
+                // A backup that met an injected storage error and SAID so (an error returned
+                // or sent to its monitor) may have left files out of the version it closed;
+                // what the version does hold must still be right, and no block may be missing.
+                let backup_said_so = out.results[1].result.is_err() || !out.results[1].monitor_errors.is_empty();
+                if !inner.faults.is_empty() && backup_said_so && !pre.bands.contains_key(id) {
+                    expected.retain(|p, _| got.contains_key(p));
+                }
+                let diff = tree::first_diff(&expected, &got, CmpOpts::restore());
                 crate::engine::force_remove(&dest);
                 ensure!(
                     rr.clean() && diff.is_none(),
